@@ -320,6 +320,9 @@ fn plist<E: El>(s: &str) -> Option<(Vec<E>, Vec<OE>)> {
 /// run a library call; a panic gives output `panic` and is a failure unless documented
 fn call<T>(site: &str, documented: bool, f: impl FnOnce() -> T, judge: impl FnOnce(T) -> Outcome) -> Outcome {
     match guarded(f) {
+        // the doc comment promises a panic for this input (the harness runs a debug build, so
+        // `debug_assert!` counts): returning normally contradicts the documented contract
+        Ok(v) if documented => judge(v).fail(format!("{}.nopanic", site), "documented panic did not occur"),
         Ok(v) => judge(v),
         Err(info) => {
             let o = Outcome::ok("panic");
@@ -725,7 +728,7 @@ fn exec_f<E: El>(t: &[&str]) -> Outcome {
                 let mut o = Outcome::ok(show_list(&r));
                 let or = oes(&r);
                 let ok = or.len() == oxs.len()
-                    && oxs.iter().zip(&or).all(|(x, y)| if *x == Z { *y == Z } else { f.mul(*x, *y) == ONE && *y == f.inv(*x) });
+                    && oxs.iter().zip(&or).all(|(x, y)| if *x == Z { *y == Z } else { f.mul(*x, *y) == ONE });
                 if !ok {
                     o = o.fail("utils.batch_inversion.value", format!("{}: not x^-1 / 0 elementwise", E::NAME));
                 }
@@ -864,6 +867,329 @@ fn join(v: &[String]) -> String {
     }
 }
 
+// ------------------------------------------------------------------------------------ structured cases
+/// Operands built by construction (HARDENING.md): products of chosen factors (exact divisions, quotients
+/// with interior zero coefficients), sparse polynomials, x^k ± c, a zero at every interior position,
+/// independent amounts of leading-zero padding for both operands, every comparison of the code
+/// (a vs len, #roots vs len, deg a vs deg b vs the slice lengths, n vs 1024) on, below and above the
+/// boundary, interpolation on subgroups / cosets / arithmetic progressions with values of low-degree
+/// polynomials, Lagrange basis values, batches that follow a batch with larger/duplicate data.
+fn gen_structured(g: &mut G, of: OF, gen0: u128, thorough: bool, light: bool, emit: &mut dyn FnMut(String)) {
+    let f = g.f;
+    let k = g.deg;
+    let m = g.m;
+    let fmt = |e: &OE| -> String { (0..k).map(|i| e.0[i].to_string()).collect::<Vec<_>>().join(":") };
+    let ps = |p: &[OE]| -> String {
+        if p.is_empty() {
+            "-".into()
+        } else {
+            p.iter().map(|e| fmt(e)).collect::<Vec<_>>().join(",")
+        }
+    };
+    let pad = |p: &[OE], z: usize| -> Vec<OE> {
+        let mut v = p.to_vec();
+        v.extend(std::iter::repeat(Z).take(z));
+        v
+    };
+    let base = |v: u128| -> OE { OE([v % m, 0, 0]) };
+    let neg1 = base(m - 1);
+    // random non-zero element / random element
+    fn rnd(g: &mut G, k: usize, m: u128, nz: bool) -> OE {
+        loop {
+            let mut e = [0u128; 3];
+            for c in e.iter_mut().take(k) {
+                *c = g.word() % m;
+            }
+            if !nz || e != [0, 0, 0] {
+                return OE(e);
+            }
+        }
+    }
+    let mono = |c: OE, d: usize| -> Vec<OE> {
+        let mut v = vec![Z; d + 1];
+        v[d] = c;
+        v
+    };
+    let reps = if light && !thorough { 1 } else { 2 };
+
+    // ---- quotient shapes and divisor shapes
+    let mut qs: Vec<Vec<OE>> = vec![];
+    for _ in 0..reps {
+        let len = g.rng.range(4, 7) as usize;
+        let dense: Vec<OE> = (0..len).map(|_| rnd(g, k, m, true)).collect();
+        qs.push(dense.clone());
+        // a zero at every position except the leading one, and runs of zeros
+        for i in 0..len - 1 {
+            let mut q = dense.clone();
+            q[i] = Z;
+            qs.push(q);
+        }
+        let mut q = dense.clone();
+        for c in q.iter_mut().take(len - 1).skip(1) {
+            *c = Z;
+        }
+        qs.push(q); // only constant and leading term
+        let mut q = dense.clone();
+        for c in q.iter_mut().take(len - 1) {
+            *c = Z;
+        }
+        qs.push(q); // a monomial
+    }
+    qs.push(vec![ONE]);
+    qs.push(vec![rnd(g, k, m, true)]);
+    qs.push(of.xab(3, ONE)); // x^3 - 1
+    qs.push(of.xab(4, neg1)); // x^4 + 1
+    qs.push(vec![ONE; 5]);
+    let mut bs: Vec<Vec<OE>> = vec![];
+    bs.push(vec![rnd(g, k, m, true)]); // constant divisor
+    bs.push(vec![ONE]);
+    bs.push(vec![rnd(g, k, m, false), ONE]); // x + c
+    bs.push(vec![Z, ONE]); // x
+    bs.push(of.xab(2, ONE)); // x^2 - 1
+    bs.push(of.xab(3, rnd(g, k, m, true)));
+    bs.push((0..3).map(|_| rnd(g, k, m, true)).collect());
+    bs.push(vec![rnd(g, k, m, true), Z, Z, rnd(g, k, m, true)]); // interior zeros
+    bs.push(vec![Z, Z, rnd(g, k, m, true)]); // c x^2
+    if !light || thorough {
+        bs.push((0..5).map(|_| rnd(g, k, m, true)).collect());
+    }
+    let pads: &[(usize, usize)] = if light && !thorough { &[(0, 0), (1, 3), (2, 0)] } else { &[(0, 0), (0, 2), (1, 0), (3, 1), (2, 2)] };
+    for (qi, q) in qs.iter().enumerate() {
+        for (bi, b) in bs.iter().enumerate() {
+            if !thorough && (qi + 2 * bi) % 3 != 0 && qi > 2 {
+                continue; // sample the product in the quick tier
+            }
+            let prod = of.pmul(q, b);
+            // exact, and with a remainder of degree < deg b whose top coefficients may vanish
+            let mut dividends = vec![prod.clone()];
+            if b.len() > 1 {
+                let r: Vec<OE> = (0..b.len() - 1).map(|_| rnd(g, k, m, false)).collect();
+                dividends.push(of.padd(&prod, &r));
+                dividends.push(of.padd(&prod, &[rnd(g, k, m, true)]));
+            }
+            for a in &dividends {
+                let (pa, pb) = *g.rng.pick(pads);
+                emit(format!("{} div {} {}", f, ps(&pad(a, pa)), ps(&pad(b, pb))));
+                if qi % 4 == 0 || thorough {
+                    for (pa, pb) in pads {
+                        emit(format!("{} div {} {}", f, ps(&pad(a, *pa)), ps(&pad(b, *pb))));
+                    }
+                }
+            }
+            emit(format!("{} mul {} {}", f, ps(&pad(q, bi % 3)), ps(&pad(b, qi % 2))));
+            emit(format!("{} add {} {}", f, ps(&pad(&prod, qi % 3)), ps(&pad(b, bi % 4))));
+            emit(format!("{} sub {} {}", f, ps(&pad(b, bi % 4)), ps(&pad(&prod, qi % 3))));
+        }
+    }
+    // degree relations against slice-length relations: deg a = deg b - 1, deg b, deg b + 1 with the
+    // slice of a shorter than, as long as, longer than the slice of b (padding the other operand)
+    for db in [0usize, 1, 3] {
+        for da in [db.saturating_sub(1), db, db + 1] {
+            for (za, zb) in [(0usize, 0usize), (0, 3), (3, 0), (1, 1)] {
+                let a: Vec<OE> = (0..=da).map(|_| rnd(g, k, m, true)).collect();
+                let b: Vec<OE> = (0..=db).map(|_| rnd(g, k, m, true)).collect();
+                for op in ["div", "add", "sub", "mul", "addip"] {
+                    emit(format!("{} {} {} {}", f, op, ps(&pad(&a, za)), ps(&pad(&b, zb))));
+                }
+            }
+        }
+    }
+    // zero dividend / zero divisor in every padding
+    for za in 0..3usize {
+        for zb in 0..3usize {
+            emit(format!("{} div {} {}", f, ps(&pad(&[], za)), ps(&pad(&[rnd(g, k, m, true)], zb))));
+            emit(format!("{} div {} {}", f, ps(&pad(&[rnd(g, k, m, true)], za)), ps(&pad(&[], zb))));
+        }
+    }
+
+    // ---- synthetic division: p = s*(x^a - b) + rem by construction; a vs len on, below, above
+    let ss: Vec<Vec<OE>> = vec![
+        vec![ONE],
+        (0..4).map(|_| rnd(g, k, m, true)).collect(),
+        vec![rnd(g, k, m, true), Z, Z, rnd(g, k, m, true), Z, rnd(g, k, m, true)],
+        mono(rnd(g, k, m, true), 5),
+        of.xab(2, ONE),
+    ];
+    for s_ in &ss {
+        for a in [1usize, 2, 3, 5] {
+            for b in [ONE, neg1, base(2), rnd(g, k, m, true)] {
+                let d = of.xab(a, b);
+                let exact = of.pmul(s_, &d);
+                let rem: Vec<OE> = (0..a).map(|_| rnd(g, k, m, false)).collect();
+                let mut low = vec![Z; a];
+                low[0] = rnd(g, k, m, true);
+                for p in [exact.clone(), of.padd(&exact, &rem), of.padd(&exact, &low)] {
+                    let z = g.rng.below(3) as usize;
+                    emit(format!("{} syndiv {} {} {}", f, ps(&pad(&p, z)), a, fmt(&b)));
+                }
+            }
+        }
+    }
+    for len in [1usize, 2, 3, 6] {
+        let p: Vec<OE> = (0..len).map(|_| rnd(g, k, m, true)).collect();
+        for a in [len.saturating_sub(1), len, len + 1] {
+            for b in [ONE, rnd(g, k, m, true)] {
+                emit(format!("{} syndiv {} {} {}", f, ps(&p), a, fmt(&b)));
+            }
+        }
+    }
+    // ---- division by roots: exact products, repeated roots, the root 0, #roots vs len
+    let r1 = rnd(g, k, m, true);
+    let r2 = rnd(g, k, m, true);
+    let root_sets: Vec<Vec<OE>> = vec![
+        vec![r1],
+        vec![Z],
+        vec![r1, r2],
+        vec![r1, r1],
+        vec![Z, r1],
+        vec![r1, Z],
+        vec![Z, Z],
+        vec![r1, Z, r2, r1],
+        vec![ONE, neg1, base(2)],
+    ];
+    for rs in &root_sets {
+        let d = of.from_roots(rs);
+        for s_ in &ss[..3] {
+            let exact = of.pmul(s_, &d);
+            emit(format!("{} syndivroots {} {}", f, ps(&exact), ps(rs)));
+            emit(format!("{} syndivroots {} {}", f, ps(&pad(&of.padd(&exact, &[rnd(g, k, m, true)]), 2)), ps(rs)));
+        }
+        for len in [rs.len().saturating_sub(1), rs.len(), rs.len() + 1, rs.len() + 2] {
+            let p: Vec<OE> = (0..len).map(|_| rnd(g, k, m, true)).collect();
+            emit(format!("{} syndivroots {} {}", f, ps(&p), ps(rs)));
+        }
+        emit(format!("{} roots {}", f, ps(rs)));
+    }
+
+    // ---- sparse polynomials and a zero / a single non-zero at every position
+    for len in [5usize, 6] {
+        let dense: Vec<OE> = (0..len).map(|_| rnd(g, k, m, true)).collect();
+        for i in 0..len {
+            let mut z = dense.clone();
+            z[i] = Z;
+            let single = {
+                let mut v = vec![Z; len];
+                v[i] = dense[i];
+                v
+            };
+            for p in [&z, &single] {
+                emit(format!("{} deg {}", f, ps(p)));
+                emit(format!("{} rlz {}", f, ps(p)));
+                emit(format!("{} binv {}", f, ps(p)));
+                emit(format!("{} eval {} {}", f, ps(p), fmt(&rnd(g, k, m, false))));
+                emit(format!("{} scal {} {}", f, ps(p), fmt(&rnd(g, k, m, true))));
+                emit(format!("{} mul {} {}", f, ps(p), ps(&z)));
+            }
+        }
+    }
+    for d in [1usize, 2, 7, 16] {
+        for c in [ONE, neg1] {
+            let p = of.xab(d, c);
+            for x in [Z, ONE, neg1, rnd(g, k, m, false)] {
+                emit(format!("{} eval {} {}", f, ps(&p), fmt(&x)));
+            }
+        }
+    }
+
+    // ---- interpolation domains: subgroups, cosets, arithmetic progressions (with and without 0)
+    let sizes: &[usize] = if light && !thorough { &[1, 2, 4, 5] } else { &[1, 2, 3, 4, 5, 8, 9, 16] };
+    for &n in sizes {
+        let mut domains: Vec<Vec<OE>> = vec![];
+        if n.is_power_of_two() {
+            let w = powmod(gen0, (m - 1) / n as u128, m);
+            let sub: Vec<OE> = (0..n).map(|i| base(powmod(w, i as u128, m))).collect();
+            let off = rnd(g, k, m, true);
+            domains.push(sub.iter().map(|x| of.mul(*x, off)).collect()); // coset
+            domains.push(sub);
+        }
+        let start = rnd(g, k, m, false);
+        let step = rnd(g, k, m, true);
+        let mut ap = vec![];
+        let mut cur = start;
+        for _ in 0..n {
+            ap.push(cur);
+            cur = of.add(cur, step);
+        }
+        domains.push(ap);
+        domains.push((0..n).map(|i| base(i as u128)).collect()); // 0, 1, 2, …
+        for xs in &domains {
+            let mut yss: Vec<Vec<OE>> = vec![];
+            for d in [0usize, 1, n.saturating_sub(2), n.saturating_sub(1)] {
+                // values of a polynomial with d+1 coefficients (degree < n: leading zeros in the result)
+                let p: Vec<OE> = (0..=d.min(n.saturating_sub(1))).map(|_| rnd(g, k, m, true)).collect();
+                yss.push(xs.iter().map(|x| of.eval(&p, *x)).collect());
+            }
+            yss.push(vec![Z; n]);
+            for i in 0..n.min(3) {
+                let mut e = vec![Z; n];
+                e[(i * 5 + n - 1) % n] = ONE; // Lagrange basis polynomials
+                yss.push(e);
+            }
+            for ys in &yss {
+                for rlz in [0, 1] {
+                    emit(format!("{} interp {} {} {}", f, ps(xs), ps(ys), rlz));
+                }
+                if n <= 8 {
+                    emit(format!("{} interpb {} 1 1 {} {}", f, n, ps(xs), ps(ys)));
+                }
+            }
+            emit(format!("{} roots {}", f, ps(xs)));
+            emit(format!("{} evalmany {} {}", f, ps(&yss[1]), ps(xs)));
+        }
+        // several batches: the state (`roots`) of a batch with large / duplicate data is reused by the next
+        if n <= 8 && n >= 1 {
+            let good = domains[domains.len() - 2].clone();
+            let mut dup = good.clone();
+            if n >= 2 {
+                dup[n - 1] = dup[0];
+            }
+            let ys1: Vec<OE> = (0..n).map(|_| rnd(g, k, m, false)).collect();
+            let ys2: Vec<OE> = good.iter().map(|x| of.eval(&[ONE, ONE], *x)).collect();
+            for order in [[&dup, &good], [&good, &dup]] {
+                let xs: Vec<OE> = order.iter().flat_map(|b| b.iter().cloned()).collect();
+                let ys: Vec<OE> = ys1.iter().chain(ys2.iter()).cloned().collect();
+                emit(format!("{} interpb {} 2 2 {} {}", f, n, ps(&xs), ps(&ys)));
+            }
+            let three: Vec<OE> = domains[domains.len() - 1].iter().chain(good.iter()).chain(domains[domains.len() - 1].iter()).cloned().collect();
+            let ys3: Vec<OE> = (0..3 * n).map(|_| rnd(g, k, m, false)).collect();
+            emit(format!("{} interpb {} 3 3 {} {}", f, n, ps(&three), ps(&ys3)));
+        }
+    }
+
+    // ---- batch inversion / power series / accumulation: structured vectors and the 1024 threshold
+    for len in [1usize, 2, 5, 8] {
+        emit(format!("{} binv {}", f, ps(&vec![Z; len])));
+        for off in 0..2usize {
+            let v: Vec<OE> = (0..len).map(|i| if (i + off) % 2 == 0 { Z } else { rnd(g, k, m, true) }).collect();
+            emit(format!("{} binv {}", f, ps(&v))); // alternating at even / odd offsets
+        }
+        let c = rnd(g, k, m, true);
+        emit(format!("{} binv {}", f, ps(&vec![c; len]))); // constant
+    }
+    let big: &[usize] = if light && !thorough { &[1024] } else { &[1023, 1024, 1025] };
+    for &len in big {
+        let c = rnd(g, k, m, true);
+        emit(format!("{} binv {}", f, ps(&vec![Z; len])));
+        for pos in [0usize, 1, len - 2, len - 1] {
+            let mut v = vec![c; len];
+            v[pos] = Z;
+            emit(format!("{} binv {}", f, ps(&v))); // a single zero at the borders
+            let mut v = vec![Z; len];
+            v[pos] = c;
+            emit(format!("{} binv {}", f, ps(&v))); // a single non-zero at the borders
+        }
+    }
+    for nn in [0usize, 1, 2, 1023, 1024, 1025] {
+        for b in [Z, ONE, neg1, base(gen0)] {
+            if nn > 2 && light && !thorough && b != neg1 {
+                continue;
+            }
+            emit(format!("{} pser {} {}", f, fmt(&b), nn));
+            emit(format!("{} psero {} {} {}", f, fmt(&b), fmt(&rnd(g, k, m, true)), nn));
+        }
+    }
+}
+
 /// `light`: the further extension fields get the same generators on smaller exhaustive sets (the code
 /// under test is generic; they mainly add the extension arithmetic of C08 to the picture)
 #[allow(clippy::too_many_arguments)]
@@ -873,6 +1199,8 @@ fn gen_f(
     bits: u32,
     deg: usize,
     light: bool,
+    of: OF,
+    gen0: u128,
     rng: &mut Rng,
     tier: Tier,
     n: usize,
@@ -1034,6 +1362,8 @@ fn gen_f(
         }
     }
 
+    gen_structured(&mut g, of, gen0, thorough, light, emit);
+
     // ---- random structured cases
     let sizes = |g: &mut G| -> usize {
         match g.rng.below(20) {
@@ -1184,14 +1514,14 @@ impl Prop for P {
     }
     fn gen(&self, rng: &mut Rng, tier: Tier, n: usize, emit: &mut dyn FnMut(String)) {
         let n = default_n(tier, 1_200, 60_000, n);
-        gen_f("f64", M64, 64, 1, false, rng, tier, n, emit);
-        gen_f("f62", M62, 64, 1, false, rng, tier, n, emit);
-        gen_f("f128", M128, 128, 1, false, rng, tier, n / 2, emit);
-        gen_f("q64", M64, 64, 2, false, rng, tier, n / 2, emit);
-        gen_f("q62", M62, 64, 2, true, rng, tier, n / 6, emit);
-        gen_f("q128", M128, 128, 2, true, rng, tier, n / 6, emit);
-        gen_f("c64", M64, 64, 3, true, rng, tier, n / 6, emit);
-        gen_f("c62", M62, 64, 3, true, rng, tier, n / 6, emit);
+        gen_f("f64", M64, 64, 1, false, <f64::BaseElement as El>::OFLD, 7, rng, tier, n, emit);
+        gen_f("f62", M62, 64, 1, false, <f62::BaseElement as El>::OFLD, 3, rng, tier, n, emit);
+        gen_f("f128", M128, 128, 1, false, <f128::BaseElement as El>::OFLD, 3, rng, tier, n / 2, emit);
+        gen_f("q64", M64, 64, 2, false, <Q64 as El>::OFLD, 7, rng, tier, n / 2, emit);
+        gen_f("q62", M62, 64, 2, true, <Q62 as El>::OFLD, 3, rng, tier, n / 6, emit);
+        gen_f("q128", M128, 128, 2, true, <Q128 as El>::OFLD, 3, rng, tier, n / 6, emit);
+        gen_f("c64", M64, 64, 3, true, <C64 as El>::OFLD, 7, rng, tier, n / 6, emit);
+        gen_f("c62", M62, 64, 3, true, <C62 as El>::OFLD, 3, rng, tier, n / 6, emit);
         emit("f63 eval 1 1".into());
     }
     fn exec(&self, line: &str) -> Outcome {
@@ -1209,7 +1539,9 @@ impl Prop for P {
         }
     }
     fn timeout_ms(&self) -> u64 {
-        20_000
+        // long vectors over the 128-bit extension are slow in the bignum oracle on a loaded machine;
+        // a timeout must not be mistaken for a hang of the implementation
+        180_000
     }
     fn class(&self, line: &str, out: &str) -> String {
         let t: Vec<&str> = line.split(' ').collect();
